@@ -199,9 +199,13 @@ Definition write_assert_ok (sys : system) (b : block) : bool :=
   cmp_holds write_cmp (Qabs (inject_Z (rnd_he c) - c)) write_tol.
 
 (* ------------------------------------------------------------------------ the timeline ------ *)
+(* `curr_dur += self.block_durations[block_counter]`: the running sum, kept in lowest terms (the value
+   is the same rational; only the representation stays small when the model is executed) *)
+Definition advance (cur : Q) (b : block) : Q := Qred (cur + b_stored b).
+
 (* sequence.py:516-519 duration() *)
 Fixpoint duration_go (acc : Q) (bs : list block) : Q :=
-  match bs with [] => acc | b :: r => duration_go (acc + b_stored b) r end.
+  match bs with [] => acc | b :: r => duration_go (advance acc b) r end.
 Definition seq_duration (bs : list block) : Q := duration_go 0 bs.
 (* sequence.py:1764 (TotalDuration) and :294 (calculate_kspace): sum(self.block_durations.values()) *)
 Definition total_duration (bs : list block) : Q := fold_left Qplus (map b_stored bs) 0.
@@ -217,7 +221,7 @@ Definition adc_local (cur : Q) (b : block) : list Q :=
 Fixpoint adc_times_go (cur : Q) (bs : list block) : list Q :=              (* :128,147-154 *)
   match bs with
   | [] => []
-  | b :: r => adc_local cur b ++ adc_times_go (cur + b_stored b) r
+  | b :: r => adc_local cur b ++ adc_times_go (advance cur b) r
   end.
 Definition adc_times (bs : list block) : list Q := adc_times_go 0 bs.
 
@@ -230,7 +234,7 @@ Definition rf_local (cur : Q) (b : block) : list (Z * Q) :=
 Fixpoint rf_times_go (cur : Q) (bs : list block) : list (Z * Q) :=         (* :1263,1282-1298 *)
   match bs with
   | [] => []
-  | b :: r => rf_local cur b ++ rf_times_go (cur + b_stored b) r
+  | b :: r => rf_local cur b ++ rf_times_go (advance cur b) r
   end.
 Definition rf_times (bs : list block) : list (Z * Q) := rf_times_go 0 bs.
 
@@ -256,18 +260,83 @@ Definition wave_local (graster : Q) (ch : slot) (cur : Q) (b : block) : list (Q 
 Fixpoint wave_go (graster : Q) (ch : slot) (cur : Q) (bs : list block) : list (Q * Q) :=
   match bs with                                                             (* :1414,1433-1530 *)
   | [] => []
-  | b :: r => wave_local graster ch cur b ++ wave_go graster ch (cur + b_stored b) r
+  | b :: r => wave_local graster ch cur b ++ wave_go graster ch (advance cur b) r
   end.
 Definition wave_pieces (graster : Q) (ch : slot) (bs : list block) : list (Q * Q) :=
   wave_go graster ch 0 bs.
 
 (* the block start times: running sum of the stored durations *)
 Fixpoint starts_go (cur : Q) (bs : list block) : list Q :=
-  match bs with [] => [] | b :: r => cur :: starts_go (cur + b_stored b) r end.
+  match bs with [] => [] | b :: r => cur :: starts_go (advance cur b) r end.
 Definition starts (bs : list block) : list Q := starts_go 0 bs.
 
 (* time_range variant (sequence.py:138-145): t = cumsum(bd); start of block i = t[i] - bd[i] *)
 Fixpoint cumsum_go (acc : Q) (l : list Q) : list Q :=
-  match l with [] => [] | x :: r => (acc + x) :: cumsum_go (acc + x) r end.
+  match l with [] => [] | x :: r => Qred (acc + x) :: cumsum_go (Qred (acc + x)) r end.
 Definition tr_start (bs : list block) (i : nat) : Q :=
   nth i (cumsum_go 0 (map b_stored bs)) 0 - nth i (map b_stored bs) 0.
+
+(* ------------------------------------------------------- time_range variants (round 2) ------ *)
+(* the shared shape of every timeline consumer: evaluate a per-block function at the running sum *)
+Section Walk.
+  Context {A : Type} (f : Q -> block -> list A).
+  Fixpoint walk (cur : Q) (bs : list block) : list A :=
+    match bs with [] => [] | b :: r => f cur b ++ walk (advance cur b) r end.
+End Walk.
+
+(* sequence.py:138-145 (adc_times), :1273-1280 (rf_times), :1424-1431 (waveforms):
+     bd = block durations; t = cumsum(bd)
+     begin_block = searchsorted(t, lo)                  = number of block END times  <  lo
+     end_block   = searchsorted(t - bd, hi, 'right')    = number of block START times <= hi
+     blocks = keys[begin_block:end_block]; curr_dur = t[begin_block] - bd[begin_block]
+   (searchsorted = these counts because durations are >= 0, so both arrays are sorted) *)
+Definition block_ends (bs : list block) : list Q := cumsum_go 0 (map b_stored bs).
+Definition block_begins (bs : list block) : list Q :=
+  map (fun p => fst p - snd p) (combine (block_ends bs) (map b_stored bs)).
+Definition count_if (p : Q -> bool) (l : list Q) : nat := length (filter p l).
+Definition begin_block (bs : list block) (lo : Q) : nat := count_if (fun t => Qltb t lo) (block_ends bs).
+Definition end_block (bs : list block) (hi : Q) : nat := count_if (fun s => Qleb s hi) (block_begins bs).
+Definition slice {A : Type} (b e : nat) (l : list A) : list A := firstn (e - b) (skipn b l).
+
+Definition tr_blocks (bs : list block) (lo hi : Q) : list block :=
+  slice (begin_block bs lo) (end_block bs hi) bs.
+Definition adc_times_tr (bs : list block) (lo hi : Q) : list Q :=
+  adc_times_go (tr_start bs (begin_block bs lo)) (tr_blocks bs lo hi).
+Definition rf_times_tr (bs : list block) (lo hi : Q) : list (Z * Q) :=
+  rf_times_go (tr_start bs (begin_block bs lo)) (tr_blocks bs lo hi).
+Definition wave_pieces_tr (graster : Q) (ch : slot) (bs : list block) (lo hi : Q) : list (Q * Q) :=
+  wave_go graster ch (tr_start bs (begin_block bs lo)) (tr_blocks bs lo hi).
+
+(* ------------------------------------------------- duration(): event counting (:514-519) ----- *)
+(* event_count += block_events[i] > 0, columns rf gx gy gz adc ext (column 0, the 1.3 delay id, stays 0) *)
+Definition count_some (g : block -> bool) (bs : list block) : Z := Z.of_nat (length (filter g bs)).
+Definition is_some {A : Type} (o : option A) : bool := match o with Some _ => true | None => false end.
+Definition event_count (bs : list block) : list Z :=
+  [ 0%Z; count_some (fun b => is_some (b_rf b)) bs; count_some (fun b => is_some (b_gx b)) bs;
+    count_some (fun b => is_some (b_gy b)) bs; count_some (fun b => is_some (b_gz b)) bs;
+    count_some (fun b => is_some (b_adc b)) bs;
+    count_some (fun b => match b_ext b with [] => false | _ => true end) bs ].
+
+(* ---------------------------------- decoding of the RF time axis (sequence.py:1210-1219) ----- *)
+(* time_shape id 0: n samples at the centres of the rf raster cells; otherwise explicit sample times,
+   stored in raster units, the last one being tl *)
+Inductive rf_time_shape := RfRegular (n : Z) | RfTimes (tl : Q).
+Definition decode_rf_tlast (raster : Q) (sh : rf_time_shape) : Q :=
+  match sh with
+  | RfRegular n => (inject_Z n - (1 # 2)) * raster           (* (arange(1, n+1) - 0.5) * raster, last *)
+  | RfTimes tl => tl * raster                                 (* decompress_shape(...) * raster, last *)
+  end.
+Definition decode_rf_shape_dur (raster : Q) (sh : rf_time_shape) : Q :=
+  match sh with
+  | RfRegular n => inject_Z n * raster                        (* len(rf.signal) * raster *)
+  | RfTimes tl =>                                              (* ceil((t[-1] - eps) / raster) * raster *)
+    inject_Z (Qceiling ((tl * raster - timing_eps) / raster)) * raster
+  end.
+
+(* ------------------------------------------- write + read of the block durations ------------ *)
+(* read_seq: duration = integer of the [BLOCKS] column * BlockDurationRaster *)
+Definition with_stored (b : block) (d : Q) : block :=
+  {| b_id := b_id b; b_stored := d; b_rf := b_rf b; b_gx := b_gx b; b_gy := b_gy b; b_gz := b_gz b;
+     b_adc := b_adc b; b_ext := b_ext b |}.
+Definition reread_block (sys : system) (b : block) : block :=
+  with_stored b (inject_Z (blocks_column sys b) * s_block_raster sys).
